@@ -434,3 +434,34 @@ Proof.
   - exists (emitted p (SExch h n a c)). rewrite (http_exact_unary_exch cfg p _ H1 H2 H3 H4 I), cut_observe.
     split; [apply observe_prefix; assumption|]. split; [apply early_refl|]. intro Hc. apply observe_complete; assumption.
 Qed.
+
+(* ================================================================== F. a stream the client ends itself *)
+(* whatever the script does afterwards (no read at all, then close / cancel; k reads; exhaustion), the logs a successful
+   init emitted head the observation: the close / cancel drain of a header-less stream delivers them *)
+Theorem pipe_init_logs_delivered sp sc :
+  legal (PStream sp) sc = true -> records sc = true -> no_exc_logs (PStream sp) = true -> pipe_reads (PStream sp) sc = true ->
+  ires sp = InitOk -> prefix_of (map ELog (ilogs sp)) (run_pipe (PStream sp) sc).
+Proof.
+  intros H1 H2 H3 H4 Hi. rewrite (pipe_refines _ _ H1 H2 H3 H4).
+  cbn in H3. apply andb_true_iff in H3 as [Hil _].
+  destruct sc as [c|h k a c|h n a c]; try discriminate H1; destruct c; try discriminate H2;
+    cbn [observe]; rewrite Hi, (deliver_quiet _ _ Hil), (cut_app_nt _ _ (nonterm_logs _)); eexists; reflexivity.
+Qed.
+
+Theorem http_init_logs_delivered cfg sp sc :
+  legal (PStream sp) sc = true -> records sc = true -> no_exc_logs (PStream sp) = true ->
+  ires sp = InitOk -> prefix_of (map ELog (ilogs sp)) (run_http cfg (PStream sp) sc).
+Proof.
+  intros H1 H2 H3 Hi. cbn in H3. apply andb_true_iff in H3 as [Hil _].
+  unfold legal in H1. apply andb_true_iff in H1 as [Hk _].
+  destruct sc as [c|h k a c|h n a c]; try discriminate Hk; destruct c; try discriminate H2;
+    cbn in Hk; apply andb_true_iff in Hk as [_ Hh];
+    assert (Hnh : (h && match hdr sp with None => true | Some _ => false end) = false)
+      by (destruct h; [destruct (hdr sp); [reflexivity|discriminate Hh]|reflexivity]);
+    unfold run_http; rewrite Hi, Hnh.
+  - rewrite (parse_init_logs _ _ _ Hil).
+    destruct (http_parse_init CbRecord _ []) as [es o]. destruct o as [[pend later]|].
+    + rewrite <- app_assoc, (cut_app_nt _ _ (nonterm_logs _)). eexists; reflexivity.
+    + rewrite (cut_app_nt _ _ (nonterm_logs _)). eexists; reflexivity.
+  - rewrite (deliver_quiet _ _ Hil), (cut_app_nt _ _ (nonterm_logs _)). eexists; reflexivity.
+Qed.
